@@ -809,7 +809,11 @@ def r82(ctx: Ctx) -> RuleReport:
                             derived.add(x.id)
                             grew = True
         used = {x.id for x in ast.walk(st.ast.value) if isinstance(x, ast.Name)}
-        first = norm(outer.target.elts[0]) if isinstance(outer.target, ast.Tuple) and outer.target.elts else None
+        flat = [x.id for x in ast.walk(outer.target) if isinstance(x, ast.Name) and x.id not in names]
+        flat = [y for y in flat]
+        # ast.walk is breadth-first: re-order by position in the source
+        flat = [x.id for x in sorted((x for x in ast.walk(outer.target) if isinstance(x, ast.Name) and x.id not in names), key=lambda x: (x.lineno, x.col_offset))]
+        first = flat[0] if flat else None
         from_triple = {first} if first else set()
         grew = True
         while grew:
